@@ -3,7 +3,7 @@
 # refreshing evidence/<id>.json; prints one line per check (exit code, wall seconds).
 tier="${1:-quick}"; jobs="${2:-16}"
 cd "$(dirname "$0")/.." || exit 2
-for id in C01 C02 C03 C04 C05 C06 C07 C08 C09 C10 C11 C12 C13 C14 C15 C16 C17 C18 C19 C20; do
+for id in ${IDS:-C01 C02 C03 C04 C05 C06 C07 C08 C09 C10 C11 C12 C13 C14 C15 C16 C17 C18 C19 C20}; do
   t0=$(date +%s)
   out=$(VERIF_SEED="${VERIF_SEED:-0}" timeout 14000 ./check "$id" --tier "$tier" --jobs "$jobs" 2>&1); code=$?
   t1=$(date +%s)
